@@ -2,8 +2,9 @@
 """tools/import_seeded.py <ID> <out> <name>: copy a confirmed sub-agent mutation into /verif/seeded/<name>/ with my own confirmation record"""
 import json, os, re, shutil, sys
 ID, out, name = sys.argv[1:4]
-src = '/tmp/mut_%s/%s' % (ID, out)
-res = open('/root/scratch/mutres/%s_%s.txt' % (ID, out)).read()
+PFX = os.environ.get('MUTPFX', 'mut')
+src = '/tmp/%s_%s/%s' % (PFX, ID, out)
+res = open('/root/scratch/mutres/%s_%s_%s.txt' % (PFX, ID, out)).read()
 def rc(tag):
     m = re.search(r'%s rc=(\d+)' % tag, res)
     return int(m.group(1)) if m else None
@@ -16,7 +17,7 @@ shutil.copy(src + '/demo.py', dst + '/demo.py')
 meta = json.load(open(src + '/meta.json'))
 lines = []
 for c in sorted(checks):
-    logf = '/root/scratch/mutres/%s_%s_%s.log' % (ID, out, c)
+    logf = '/root/scratch/mutres/%s_%s_%s_%s.log' % (PFX, ID, out, c)
     v = [l.strip() for l in open(logf) if l.strip().startswith('class=')] if os.path.exists(logf) else []
     if checks[c] == 1 and c == ID:
         lines = v[:4]
@@ -27,7 +28,7 @@ mine = {
     'files_changed': meta.get('files_changed'),
     'origin': 'independent sub-agent given only the property text and its own worktree',
     'confirmed_by_me': {
-        'worktree': '/tmp/mut_%s (git worktree of /repo, removed afterwards)' % ID,
+        'worktree': '/tmp/%s_%s (git worktree of /repo, removed afterwards)' % (PFX, ID),
         'commands': ['git checkout -- . && setup.py build_ext --inplace && python %s/demo.py  -> rc %s' % (out, rc('demo_clean')),
                      'git apply %s/patch.diff && setup.py build_ext --inplace && python %s/demo.py -> rc %s' % (out, out, rc('demo_mut')),
                      'python -m pytest -q (54 tests) -> rc %s' % rc('pytest')],
